@@ -131,7 +131,13 @@ template <class T>
 IMATH_HOSTDEVICE IMATH_CONSTEXPR14 inline T
 Line3<T>::distanceTo (const Line3<T>& line) const IMATH_NOEXCEPT
 {
-    T d = (dir % line.dir) ^ (line.pos - pos);
+    Vec3<T> n = dir % line.dir;
+    T       l = n.length ();
+
+    // parallel lines: every point of the other line is equally far away
+    if (l == 0) return distanceTo (line.pos);
+
+    T d = (n ^ (line.pos - pos)) / l;
     return (d >= 0) ? d : -d;
 }
 
